@@ -48,6 +48,7 @@ func C12(c *core.Ctx) {
 	c.Count("pool_consumers", nCons)
 	c.Floor("C-fanin/entry-points-with-pools", nPools, 6)
 	c.Floor("C-fanin/consumers", nCons, 6)
+	c.Floor("C-fanin/closes-under-completion-token", c.Counts["closes_under_completion_token"], 10)
 	// result slots of the per-query fan-outs
 	for _, e := range []struct{ pkg, fn, field string }{{"pkg/closest", "Closest", "qidx"}, {"pkg/closest", "ClosestN", "qidx"}, {"pkg/updown", "TopRanking", "qidx"}} {
 		f := c.SSAFunc(e.pkg, e.fn)
@@ -122,8 +123,19 @@ func C12(c *core.Ctx) {
 	cf, err := parser.ParseFile(token.NewFileSet(), "control.go", ctrl, 0)
 	c.Ob("C-src/positive-control", err == nil && len(nondetUses(cf)) == 2, token.NoPos, "the matcher must find both banned uses in the control source")
 	c.Ob("C-src/none-in-pkg", nuses == 0, token.NoPos, "%d uses", nuses)
+	// what a pool worker emits for a record does not depend on the records it handled before
+	if tabs := extractTables(c, newEval(c), "R0"); tabs.OK {
+		c.Count("workers_checked_stateless", checkWorkersStateless(c, "C-worker", tabs))
+		c15TrimAlignment(c) // several pairs through one trimming worker
+	}
 	// NumCPU may only size pools/buffers
 	checkNumCPU(c, p)
+	// code that runs in goroutines writes no package-level state (a necessary condition of race freedom)
+	roots := goroutineRoots(p)
+	nfun := checkNoSharedWrites(c, "C-shared/goroutine-code-writes-no-package-state", roots, "functions running in concurrently started goroutines must not write package-level variables (unsynchronised shared state: results depend on scheduling)")
+	c.Count("goroutine_roots", len(roots))
+	c.Count("functions_reachable_from_goroutines", nfun)
+	c.Floor("C-shared/goroutine-roots", len(roots), 20)
 }
 
 // checkNumCPU: runtime.NumCPU() flows only to channel capacities, loop bounds, WaitGroup.Add, GOMAXPROCS, comparisons.
